@@ -376,10 +376,21 @@ func runC18(c bson.D, x *Ctx) (err error) {
 	if n, e := bucket.DownloadToStream(ctx, id, &sink); e != nil || int(n) != L || !bytes.Equal(sink.Bytes(), data) {
 		return fmt.Errorf("DownloadToStream returned %d bytes (%v), equal=%v", n, e, bytes.Equal(sink.Bytes(), data))
 	}
-	// read script against bytes.Reader
-	ds, e := bucket.OpenDownloadStream(ctx, id)
+	// the same through the name
+	var sink2 bytes.Buffer
+	if n, e := bucket.DownloadToStreamByName(ctx, "f", &sink2); e != nil || int(n) != L || !bytes.Equal(sink2.Bytes(), data) {
+		return fmt.Errorf("DownloadToStreamByName returned %d bytes (%v), equal=%v", n, e, bytes.Equal(sink2.Bytes(), data))
+	}
+	// read script against bytes.Reader (stream opened by id or by name)
+	var ds *lungo.DownloadStream
+	if asI(getD(c, "seed"))%2 == 0 {
+		ds, e = bucket.OpenDownloadStream(ctx, id)
+	} else {
+		ds, e = bucket.OpenDownloadStreamByName(ctx, "f")
+		x.Class("read-script-on-stream-opened-by-name")
+	}
 	if e != nil {
-		return fmt.Errorf("OpenDownloadStream failed: %v", e)
+		return fmt.Errorf("opening the download stream failed: %v", e)
 	}
 	rd := bytes.NewReader(data)
 	midChunkSeek := false
